@@ -32,18 +32,22 @@ type verifC39Tracker struct {
 	maxCuErr     bool
 	verifyCalls  int
 	askedFor     string
+	askedEpoch   uint64
+	maxCuEpoch   uint64
+	latest       int64
 }
 
-func (t *verifC39Tracker) LatestBlock() int64 { return 100 }
+func (t *verifC39Tracker) LatestBlock() int64 { return t.latest }
 func (t *verifC39Tracker) VerifyPairing(ctx context.Context, consumerAddress, providerAddress string, epoch uint64, chainID string) (bool, int64, string, error) {
 	t.verifyCalls++
-	t.askedFor = consumerAddress
+	t.askedFor, t.askedEpoch = consumerAddress, epoch
 	if t.pairingErr {
 		return false, 0, "", fmt.Errorf("pairing query failed")
 	}
 	return t.pairingValid, 3, "project", nil
 }
 func (t *verifC39Tracker) GetMaxCuForUser(ctx context.Context, consumerAddress, chainID string, epoch uint64) (uint64, error) {
+	t.maxCuEpoch = epoch
 	if t.maxCuErr {
 		return 0, fmt.Errorf("max cu query failed")
 	}
@@ -66,7 +70,7 @@ func VerifC39VerifySession() {
 	badSig := verif_nondet_bool("request.unverifiableSignature")
 	registered := verif_nondet_bool("consumer.alreadyRegisteredForEpoch")
 	tracker := &verifC39Tracker{pairingValid: verif_nondet_bool("chain.pairsConsumerWithProvider"), pairingErr: verif_nondet_bool("chain.pairingQueryFails"),
-		maxCuErr: verif_nondet_bool("chain.maxCuQueryFails")}
+		maxCuErr: verif_nondet_bool("chain.maxCuQueryFails"), latest: int64(verif_nondet_range("provider.latestLavaBlock", 0, 2)) * 50} // 0, 50 (behind the relay's epoch) or 100
 	relayNum := verif_nondet_u64("request.relayNum")
 	verif_assume(relayNum < 1<<32)
 
@@ -136,7 +140,7 @@ func VerifC39VerifySession() {
 		verif_assert("served-request-is-for-an-accepted-epoch", !oldEpoch)
 		verif_assert("served-request-carries-the-hash-of-its-data", hashCase == 0)
 		verif_assert("served-request-is-signed", !badSig && addr.String() == consumer)
-		verif_assert("served-consumer-registered-before-or-paired-by-the-chain", registered || (tracker.pairingValid && !tracker.pairingErr && !tracker.maxCuErr && tracker.askedFor == consumer))
+		verif_assert("served-consumer-registered-before-or-paired-by-the-chain-for-that-epoch", registered || (tracker.pairingValid && !tracker.pairingErr && !tracker.maxCuErr && tracker.askedFor == consumer && tracker.askedEpoch == 80 && tracker.maxCuEpoch == 80))
 		verif_assert("session-handed-out-locked-for-this-relay", got != nil && got.SessionID == 9 && got.PairingEpoch == 80)
 		verif_reach("served")
 		return
